@@ -40,6 +40,7 @@ fn other_check(id: &str, tier: &str, seed: u64) -> Option<i32> {
         "C11" => Some(props::c11::run(tier, seed)),
         "C12" => Some(props::c12::run(tier, seed)),
         "C20" => Some(props::c20::run(tier, seed)),
+        "C16" | "C17" => Some(props::c16::run(id, tier, seed)),
         _ => None,
     }
 }
@@ -105,7 +106,9 @@ fn main() {
             let id = args[2].as_str();
             let tier = args[3].as_str();
             let a = WorkerArgs { shard: args[4].parse().unwrap(), nshards: args[5].parse().unwrap(), budget_s: args[6].parse().unwrap(), seed: args[7].parse().unwrap(), validate_n: args[8].parse().unwrap() };
-            if id == "C11" {
+            if id == "C16" || id == "C17" {
+                props::c16::worker_main(id, tier, a.shard, a.nshards, a.budget_s);
+            } else if id == "C11" {
                 props::c11::worker_main(tier, a.shard, a.nshards, a.budget_s);
             } else if id == "C09" {
                 props::c09::worker_main(tier, a.shard, a.nshards, a.seed, &args);
